@@ -10,6 +10,7 @@ clause of the statement is a direct comparison against the generated input:
                is untouched; wcs_sky: the image corners map to the same sky under both headers (refs/wcs_zenithal)
   nodes        expanded[kf, lf] == float32(original[kf, lf]) exactly, for every decimation node
   range        min/max of the expanded image lie within [min, max] of the compressed samples
+  range_of_image  ... and hence within [min, max] of the original image, whose samples the compressed ones are
   linear       on the complete cells of an image that is bilinear between nodes (our own formula) the expanded
                image equals the original to 4 float32 ulp of the node range
   aux          a compressed file is accepted by load_image_band / _load_aux_image / load_globals and gives the shape
@@ -91,7 +92,7 @@ def header_for(idx, rows, cols, rng):
 def make_image(rows, cols, f, rng, linear=True, dtype=np.float32):
     """random image; bilinear between random nodes on the complete cells.  Returns img, (K, L)"""
     amp = 10 ** rng.uniform(-3, 3)
-    off = rng.choice([0.0, 1.0, -5.0, 100.0]) * amp * (rng.random() < 0.5)
+    off = rng.choice([0.0, 3.0, -5.0, 100.0]) * amp          # 3 in 4 images do not contain the value 0 in their range
     img = (rng.uniform(-1, 1, (rows, cols)) * amp + off).astype(np.float32)
     K = (rows - 1) // f
     L = (cols - 1) // f
@@ -125,8 +126,9 @@ def _keydiff(a, b):
     return abs(a - b) / max(1.0, abs(b))
 
 
-def judge(o, wit, orig_img, orig_hdr, comp_data, exp_data, exp_hdr, f, KL, judged_linear=True):
-    """all clauses of the statement for one round trip; orig_img is what went in, exp_* what came out"""
+def judge(o, wit, orig_img, orig_hdr, comp_data, exp_data, exp_hdr, f, KL, judged_linear=True, valid=None):
+    """all clauses of the statement for one round trip; orig_img is what went in, exp_* what came out;
+    valid = boolean mask of the pixels to judge (SR6 -m blanks the others on purpose)"""
     rows, cols = np.squeeze(orig_img).shape[-2:]
     orig2 = np.squeeze(orig_img)
     if exp_data is None:
@@ -137,6 +139,10 @@ def judge(o, wit, orig_img, orig_hdr, comp_data, exp_data, exp_hdr, f, KL, judge
     if exp2.shape != (rows, cols):
         o.violate('shape', dict(wit, expanded_shape=list(np.shape(exp_data))))
         return
+    exp_rng = exp2
+    if valid is not None:
+        exp_rng = exp2[valid] if valid.any() else orig2.astype(np.float32)
+        exp2 = np.where(valid, exp2, orig2.astype(np.float32))
     # BN keys
     left = [k for k in exp_hdr if str(k).startswith('BN_')]
     if left:
@@ -188,11 +194,20 @@ def judge(o, wit, orig_img, orig_hdr, comp_data, exp_data, exp_hdr, f, KL, judge
     if comp_data is not None:
         lo, hi = float(np.min(comp_data)), float(np.max(comp_data))
         ulp = EPS32 * max(abs(lo), abs(hi), 1e-30)
-        exc = max(lo - float(np.min(exp2)), float(np.max(exp2)) - hi) / ulp
+        exc = max(lo - float(np.min(exp_rng)), float(np.max(exp_rng)) - hi) / ulp
         o.worst('range_excess_ulp32', max(exc, 0.0))
         o.count('range_checked')
         if not exc <= 1.0:
-            o.violate('range', dict(wit, compressed=[lo, hi], expanded=[float(np.min(exp2)), float(np.max(exp2))]))
+            o.violate('range', dict(wit, compressed=[lo, hi], expanded=[float(np.min(exp_rng)), float(np.max(exp_rng))]))
+    # range of the image itself: the compressed samples are samples of the image (decimation), so the clause above
+    # implies that no expanded value leaves [min, max] of the original; this sees a compressed array that carries
+    # values which are not image samples (e.g. a last row/column that was never copied)
+    lo_i, hi_i = float(np.min(orig2.astype(np.float32))), float(np.max(orig2.astype(np.float32)))
+    ulp = EPS32 * max(abs(lo_i), abs(hi_i), 1e-30)
+    exc = max(lo_i - float(np.min(exp_rng)), float(np.max(exp_rng)) - hi_i) / ulp
+    o.worst('range_of_image_excess_ulp32', max(exc, 0.0))
+    if not exc <= 1.0:
+        o.violate('range_of_image', dict(wit, image=[lo_i, hi_i], expanded=[float(np.min(exp2)), float(np.max(exp2))]))
     # linear on complete cells
     K, L = KL
     if judged_linear and K >= 1 and L >= 1:
@@ -438,6 +453,7 @@ def sr6_case(o, rng, rows, cols, f, idx, tmp, variant):
     fits.PrimaryHDU(img, header=hdr.copy()).writeto(p0, overwrite=True)
     orig_hdr = fits.getheader(p0)
     mask = None
+    valid = None
     lvl = logging.getLogger().level
     try:
         try:
@@ -478,9 +494,8 @@ def sr6_case(o, rng, rows, cols, f, idx, tmp, variant):
                 if not np.all(np.isnan(exp_data[m])):
                     o.violate('sr6_mask', dict(wit, note='masked pixels not NaN'))
                 o.count('sr6_masked_runs')
-                # judge the unmasked pixels only: put the original values back where masked
-                exp_data = np.where(m, img, exp_data)
-        judge(o, wit, img, orig_hdr, comp_data, exp_data, exp_hdr, f, KL, judged_linear=(KL != (0, 0)))
+                valid = ~m                   # judge the unmasked pixels only
+        judge(o, wit, img, orig_hdr, comp_data, exp_data, exp_hdr, f, KL, judged_linear=(KL != (0, 0)), valid=valid)
         o.count('sr6_runs')
         o.count('roundtrips')
         o.n_eval += 1
@@ -547,7 +562,7 @@ def cases(seed, tier):
     for rows in range(2, 41):
         out.append({'kind': 'block', 'rows': rows, 'cols': [2, 40], 'factors': list(range(1, 13)) + [41, 64],
                     'seed': [0, 'block', rows]})
-    nrand = 16 if tier == 'quick' else 96
+    nrand = 16 if tier == 'quick' else 200
     per = 150 if tier == 'quick' else 300
     for k in range(nrand):
         out.append({'kind': 'random', 'n': per, 'max_shape': 400 if k % 2 else 120, 'seed': [seed, 'random', k]})
